@@ -1,5 +1,6 @@
 """C08 - the solution is independent of initial guesses and of the damping strategy."""
 import copy
+import math
 
 from pvmon import netgen
 from pvmon.compare import snapshot, diff_snapshots, nonunique_physics
@@ -18,7 +19,7 @@ ASSUMPTIONS = ["a start assignment from which the solver does not converge is sk
 CONFIG = {"quick": {"shards": 8, "timeout_s": 600, "cases": 220},
           "thorough": {"shards": 16, "timeout_s": 3000, "cases": 5000}}
 REQUIRED_COUNTERS = ["variants_compared_pn_bar", "variants_compared_tfluid_bidirectional", "variants_compared_tfluid_heat",
-                     "variants_compared_damping", "variants_compared_gas"]
+                     "variants_compared_damping", "variants_compared_gas", "variants_compared_press_control_in_reduced_net"]
 
 
 def gen_cases(tier, seed):
@@ -31,8 +32,9 @@ def run_case(case, ctx):
     kind = case["kind"]
     if kind == "hyd":
         fluid = str(rng.choice(["water", "lgas", "hydrogen"]))
-        spec = netgen.gen_hydraulic(rng, fluid=fluid, features=[("valves", "pi_valves"), ("multi_grid", "mass_storage"),
-                                                               ("flow_control", "heat_exchanger")][int(rng.integers(3))], max_sections=3)
+        spec = netgen.gen_hydraulic(rng, fluid=fluid, features=[("valves", "pi_valves"), ("multi_grid", "mass_storage"), ("flow_control", "heat_exchanger"),
+                                                               ("press_control", "islands"), ("press_control", "valves", "oos", "islands")][int(rng.integers(5))],
+                                    max_sections=3)
         mode = "hydraulics"
     else:
         spec = netgen.gen_heating(rng, modes=netgen.CONSUMER_MODES if kind == "bidir" else ["MF_DT", "MF_TR", "QE_MF"]) \
@@ -133,6 +135,8 @@ def run_case(case, ctx):
         if fluid != "water":
             obs.count("variants_compared_gas")
         obs.maxi("max_rel_dev", md)
+        if any(e["kind"] == "press_control" for e in spec["elements"]) and any(math.isnan(r["p_bar"]) for r in s0["junction"].values()):
+            obs.count("variants_compared_press_control_in_reduced_net")
         if d:
             obs.violate("solution_depends_on_start_values" if what else "solution_depends_on_damping",
                         "perturbed %s, damping %s: %d of %d values differ, first res_%s[%s].%s %s"
